@@ -190,6 +190,19 @@ let run toks =
       "ok " ^ bool_s (List.mem (bx tok) (candidates (hash_of t) (bx k) (if fp = "none" then None else Some (bx fp)) (zd now) (zd i)))
   | ["tostring"; z] -> hx (to_string (zd z))
   | "args" :: rest -> verdict_s (args_run rest)
+  | "ssmodel" :: pk :: ops ->
+      (* ops: S:<nonce>:<plain> | R:<nonce> | C | I:<nonce>:<plain> | O ; nonces are the ones the implementation drew *)
+      let pk = bx pk in
+      let st = ref ss_empty and cur = ref [] and out = ref [] in
+      List.iter (fun o ->
+        let sop = match split_on ':' o with
+          | ["S"; n; p] -> SSet (bx n, bx p) | ["R"; n] -> SRotate (bx n) | ["C"] -> SClear
+          | ["I"; n; p] -> SMoveIn (bx n, bx p) | ["O"] -> SMoveOut | _ -> failwith "ssmodel op" in
+        st := ss_step pk !st sop; cur := ss_last !cur sop;
+        let rv = match ss_reveal pk !st with Ok d -> "ok " ^ hx d | Throw e -> exn_s e in
+        out := ("ct=" ^ hx !st.ss_ct ^ ",nonce=" ^ hx !st.ss_nonce ^ ",tag=" ^ hx !st.ss_tag ^ ",reveal=" ^ rv ^
+                ",expected=" ^ hx !cur ^ ",heap=clean,wipe=clean,opaque=yes,tamper=ok") :: !out) ops;
+      String.concat " | " (List.rev !out)
   | ["b64enc"; url; pad; d] -> hx (base64_encode (b01 url) (b01 pad) (bx d))
   | ["spec.b64enc"; url; pad; d] -> hx (b64_spec_encode (b01 url) (b01 pad) (bx d))
   | ["b64dec"; url; req; strict; s] -> (match base64_decode (b01 url) (b01 req) (b01 strict) (bx s) with Some d -> "some " ^ hx d | None -> "none")
